@@ -28,6 +28,7 @@ type sop struct {
 	Ref  string // "#1" "#2" "latest" "nope" ""
 	Body int
 	Size int  // add: when > 0 the body is exactly Size bytes
+	Zero bool // add: the received date is the zero time (what is written is what reads back)
 	Back bool // add: the received date lies BEFORE every earlier delivery's (dates are metadata; order is arrival order)
 }
 
@@ -39,6 +40,9 @@ func (o sop) String() string {
 		}
 		if o.Back {
 			return fmt.Sprintf("add(%s,b%d,backdated)", storeBoxes[o.MB], o.Body)
+		}
+		if o.Zero {
+			return fmt.Sprintf("add(%s,b%d,zero-date)", storeBoxes[o.MB], o.Body)
 		}
 		return fmt.Sprintf("add(%s,b%d)", storeBoxes[o.MB], o.Body)
 	case "scan":
@@ -160,6 +164,9 @@ func (r *storeRun) apply(o sop, check bool) (probs [][2]string, changed bool) {
 		date := time.Unix(1700000000+3600*r.clock, 0)
 		if o.Back {
 			date = time.Unix(1700000000-3600*r.clock, 0)
+		}
+		if o.Zero {
+			date = time.Time{}
 		}
 		body := storeBodies[o.Body]
 		if o.Size > 0 {
